@@ -15,6 +15,7 @@
                  source, so WHICH inhibiting fingerprint Mutes reports is not determined: [mutes] returns the
                  list of all fingerprints the code may report (never empty when muted). The GC callback's
                  deletion order is irrelevant (Proofs: gc_ix_elem). *)
+From stdpp Require Import mapset.
 From AM Require Import Base.Prelude Model.Matchers.
 
 (* types.Alert: labels, StartsAt, EndsAt, UpdatedAt (annotations etc. are irrelevant to inhibition) *)
@@ -31,19 +32,22 @@ Record rule := mkRule { r_src : list matcher; r_tgt : list matcher; r_equal : li
 Definition eqkey (c : rule) (ls : list (string * string)) : list string := map (lget ls) (r_equal c).
 
 Notation scache := (gmap (list (string * string)) alert) (only parsing).
-Notation sindex := (gmap (list string) (list (list (string * string)))) (only parsing).
+Notation sindex := (gmap (list string) (gset (list (string * string)))) (only parsing).
 
-(* inhibit/index.go: Range / Add / Delete *)
-Definition ix_get (ix : sindex) (k : list string) : list (list (string * string)) := default [] (ix !! k).
+(* inhibit/index.go: Range / Add / Delete (per key a SET of source fingerprints, as the Go map of maps) *)
+Definition ix_get (ix : sindex) (k : list string) : gset (list (string * string)) := default ∅ (ix !! k).
+(* insertion / removal of one element by one map operation (std++'s {[v]} ∪ s and s ∖ {[v]} merge whole maps) *)
+Definition set_ins (v : list (string * string)) (s : gset (list (string * string))) : gset (list (string * string)) :=
+  let 'Mapset m := s in Mapset (<[v := tt]> m).
+Definition set_del (v : list (string * string)) (s : gset (list (string * string))) : gset (list (string * string)) :=
+  let 'Mapset m := s in Mapset (delete v m).
 Definition ix_add (k : list string) (v : list (string * string)) (ix : sindex) : sindex :=
-  if bool_decide (v ∈ ix_get ix k) then ix else <[k := v :: ix_get ix k]> ix.
+  <[k := set_ins v (ix_get ix k)]> ix.
 Definition ix_del (k : list string) (v : list (string * string)) (ix : sindex) : sindex :=
   match ix !! k with
   | None => ix
-  | Some l => match filter (fun x => x <> v) l with
-              | [] => delete k ix
-              | l' => <[k := l']> ix
-              end
+  | Some s => let s' := set_del v s in
+              if decide (s' = ∅) then delete k ix else <[k := s']> ix
   end.
 
 (* InhibitRule: configuration + source cache + index *)
@@ -103,7 +107,7 @@ Section Inhibit.
     end.
   Definition candidates (r : irule) (lset : list (string * string)) (now : Z) : list (list (string * string)) :=
     filter (fun f => usable r (ms_matches re (r_src (ir_cfg r)) lset) now f = true)
-           (ix_get (ir_ix r) (eqkey (ir_cfg r) lset)).
+           (elements (ix_get (ir_ix r) (eqkey (ir_cfg r) lset))).
 
   (* Inhibitor.Mutes: None = not muted; Some fs = muted, and the reported inhibitedBy fingerprint is one of fs
      (the usable sources of the FIRST rule that inhibits) *)
